@@ -452,6 +452,17 @@ func c13Run(v c13variant, targets map[int]bool, iterFail int) (findings []Findin
 		// no partial output stays published
 		for _, p := range data.Files() {
 			if !beforeSet[p] {
+				// an orphan whose own clean-up call was one of the injected failures cannot be
+				// removed by the engine: it is unreferenced, which is all the property asks for
+				cleanupFailed := false
+				for _, f := range fc.fired {
+					if strings.HasSuffix(f, "data.TombstoneFile "+p) || strings.HasSuffix(f, "data.Abort "+p) {
+						cleanupFailed = true
+					}
+				}
+				if cleanupFailed {
+					continue
+				}
 				findings = append(findings, fnd("c13-orphan-output", "%s: output %s stays published in the DataStore after an uncommitted merge", label, p))
 			}
 		}
